@@ -1,4 +1,5 @@
 """Property id -> check function."""
+import p_async
 import p_channel
 import p_halflock
 import p_iterator
@@ -75,8 +76,10 @@ def c09(chk, tier):
     chk.extra["rule"] = ("real code: every schedule (DFS, preemption-bounded where stated, deliveries nested on the "
                          "consumer's thread, close()/add_signal() on other threads) of small iterator scenarios; a "
                          "case is one schedule, distinct = distinct abstract event traces; oracle = "
-                         "TraceIteratorAbs.tla via TLC")
+                         "TraceIteratorAbs.tla via TLC; runtime adapters (tokio, async-std, mio 0.7/0.8/1.0): operation "
+                         "histories in forked children validated against the monitor of AsyncOps.tla")
     p_iterator.run_iterator(chk, tier)
+    p_async.run_async(chk, tier)
 
 
 CHECKS = {"C12": p_probes.c12, "C13": p_probes.c13, "C14": p_probes.c14, "C15": p_probes.c15,
